@@ -16,7 +16,9 @@ drivers (Packet.unpack_impl / pack_impl and the two generated-code templates):
  (e) __str__ is total: every %-format has as many conversions as arguments and
      numeric conversions are applied to stack offsets only;
  (f) everything that can raise inside a driver is inside the try (descriptor
-     sync hooks included).
+     sync hooks included);
+ (g) a rejected Fragments.insert (colliding positions on pack) leaves the cursor where the
+     failing field began (C11 clause 7).
 """
 import ast
 import re
@@ -195,6 +197,10 @@ def check_packet_error_class(ctx):
                 ctx.violation('R7-stack-shape', strm, stmt_text(n)[:120], 'stack entries are unpacked into %s, but they are %d-tuples' % (unparse(tgt), npos), n.lineno)
     nfmt = 0
     for n in ast.walk(strm.node):
+        if isinstance(n, ast.BinOp) and isinstance(n.op, ast.Mod) and not isinstance(n.left, ast.Constant) and _looks_like_format(n):
+            nfmt += 1
+            ctx.violation(rule, strm, stmt_text(n)[:160], 'the format string of a percent-format is built at run time ({}): a "%" in the embedded text makes rendering raise'.format(canon(n.left)[:80]), n.lineno)
+            continue
         if isinstance(n, ast.BinOp) and isinstance(n.op, ast.Mod) and isinstance(n.left, ast.Constant) and isinstance(n.left.value, str):
             nfmt += 1
             conv = conversions(n.left.value)
@@ -228,6 +234,14 @@ def check_packet_error_class(ctx):
     rets = [n for n in ast.walk(strm.node) if isinstance(n, ast.Return) and n.value is not None]
     if not rets:
         ctx.violation(rule, strm, 'PacketError.__str__', 'does not return a string', strm.node.lineno)
+
+
+def _looks_like_format(n):
+    """a % whose left operand is a string expression containing a literal with conversions"""
+    for x in ast.walk(n.left):
+        if isinstance(x, ast.Constant) and isinstance(x.value, str) and conversions(x.value):
+            return True
+    return False
 
 
 def _is_int_expr(a):
@@ -283,6 +297,9 @@ def check(ctx):
                     ctx.violation('R7-name-binding', sh['template'].func, '%s loop block: %s' % (d.kind, stmt_text(sh['assign'])), '"name" is bound to tuple slot %s; the field name is slot %d' % (sh['name_pos'], layout['name']), sh['template'].lineno)
     check_packet_unpack(ctx, 'R7-packet-unpack')
     check_packet_pack(ctx)
+    # colliding positions on pack: the rejected insert must leave the cursor where the field began
+    from .c11 import check as c11_check
+    c11_check(ctx, parts=('atomic',))
     check_packet_error_class(ctx)
     ctx.floor('drivers analysed', ctx.units.get('drivers', 0), 4)
     ctx.floor('format sites in PacketError.__str__', ctx.units.get('format_sites', 0), 3)
